@@ -889,6 +889,27 @@ impl DhtCoreEngine {
         })
     }
 
+    /// Store data in this node's own store, unconditionally.
+    ///
+    /// Used when this node has already been chosen as a holder of the value (it is the
+    /// origin of a PUT, the target of a remote PUT, or caches a retrieved value);
+    /// [`store`](Self::store) keeps the value only if the local node is among the peers it
+    /// selects from the routing table, which never contains the local node.
+    ///
+    /// # Errors
+    /// Returns an error if the value exceeds `MAX_DHT_VALUE_SIZE` (512 bytes).
+    pub async fn store_local(&self, key: &DhtKey, value: Vec<u8>) -> Result<()> {
+        if value.len() > MAX_DHT_VALUE_SIZE {
+            return Err(anyhow::anyhow!(
+                "Value too large: {} bytes (max: {} bytes)",
+                value.len(),
+                MAX_DHT_VALUE_SIZE
+            ));
+        }
+        self.data_store.write().await.put(key.clone(), value);
+        Ok(())
+    }
+
     /// Retrieve data from the DHT
     ///
     /// First checks local storage. If not found locally and a transport is configured,
